@@ -1066,8 +1066,16 @@ package iavl
 //@   summary
 //@ func (*nodeDB).Commit(ndb) (err)
 //@   summary
+// the working hash is computed from the working root for the working version on every call — a root that already
+// has a node key (a removal collapsed the tree onto a stored node) or no root at all is still the WORKING tree, not
+// the last saved one
 //@ func (*MutableTree).WorkingHash(tree) (h)
-//@   summary
+//@   props C02
+//@   nosafety
+//@   requires tree != nil && tree.ImmutableTree != nil && tree.ndb != nil && tree.ImmutableTree.version < 9223372036854775807
+//@   callsite Node).hashWithCount [hash-of-the-working-root-at-the-working-version] arg0 == tree.ImmutableTree.root && arg1 == result("MutableTree).WorkingVersion@1")
+//@   ensures [always-computed-from-the-working-tree] calls("Node).hashWithCount") == 1 && h == result("Node).hashWithCount@1") && calls("ImmutableTree).Hash") == 0
+//@   modifies *
 //@ func (*nodeDB).SetFastStorageVersionToBatch(ndb, latestVersion) (err)
 //@   summary
 
